@@ -13,3 +13,55 @@ def bus(case, res):
         b.finale(shutdown=prm.get("shutdown", True))
         return S.ops[:40]
     sim_case(case, res, body, session_kw=dict(args=("-f", "-l")) if prm.get("local_only") else None)
+
+
+@scenario("cluster")
+def cluster(case, res):
+    """path index under displacement pressure: paths whose home buckets form a dense run are added until the index refuses,
+    then removed and re-added in random order; after every step the owner's answer and (at quiescent points) `get` and a
+    fetch-all replica are compared with the reference map"""
+    from . import model
+    prm = case.get("params", {})
+
+    def body(S, rng):
+        eo = int(S.cfg.get("CONFIG_ELEMENT_TABLE_ORDER", 13))
+        nb, per, where = prm.get("cluster", (40, 2, "low"))
+        first = {"low": 100 + rng.randrange(50), "wrap": (1 << eo) - nb // 2, "end": (1 << eo) - nb}[where]
+        paths = model.cluster_paths(eo, first, nb, per)
+        own = [S.connect("o%d" % i, rng.choice(["raw", "uds"])) for i in range(2)]
+        obs = S.connect("obs", "raw")
+        S.request(obs, "fetch", {"id": "all"})
+        S.settle()
+        order = list(paths)
+        rng.shuffle(order)
+        for rnd in range(prm.get("rounds", 3)):
+            for i, pth in enumerate(order):
+                c = rng.choice(own)
+                S.request(c, "add", {"path": pth, "value": S.next_val(c)})
+                if rng.random() < 0.25:
+                    S.settle()
+                if rng.random() < 0.15 and S.elements:
+                    victim = rng.choice(sorted(S.elements))
+                    S.request(S.elements[victim].owner, "remove", {"path": victim})
+            S.settle()
+            S.request(obs, "get", {})
+            for pth in rng.sample(sorted(S.elements), min(10, len(S.elements))):
+                c = S.elements[pth].owner
+                S.request(c, "change", {"path": pth, "value": S.next_val(c)})
+            S.settle()
+            S.sig("cluster-size", len(S.elements) // 8, where)
+            # thin the run out again, in a new random order
+            rm = rng.sample(sorted(S.elements), int(len(S.elements) * rng.choice([0.3, 0.6, 0.9])))
+            for pth in rm:
+                S.request(S.elements[pth].owner, "remove", {"path": pth})
+                if rng.random() < 0.2:
+                    S.settle()
+            S.settle()
+            S.request(obs, "get", {})
+            S.settle()
+            rng.shuffle(order)
+        st = S.close_all()
+        S.check_idle_baseline(st)
+        S.shutdown()
+        return S.ops[:10]
+    sim_case(case, res, body)
